@@ -47,7 +47,7 @@ StepOf(a) ==
       [] OTHER -> [k |-> a.k]
 
 Conforms(W, a, W2) ==
-    \/ a.k \in {"init", "drain", "heal"}
+    \/ a.k \in {"init", "drain", "heal", "wdrain", "skip"}   \* skip: a scheduled reconcile whose object no real watcher had woken
     \/ \E pick \in (IF W2.conns = {} THEN {"c1"} ELSE W2.conns) : Step(W, StepOf(a), pick) = W2
 
 TraceNext ==
@@ -58,7 +58,9 @@ TraceNext ==
        IN  /\ l' = l + 1
            /\ w' = W2
            /\ hist' = IF fresh THEN << >> ELSE hist \o Events(w.txs, W2.txs)
-           /\ stable' = (L.act.k = "drain" /\ L.act.stable)
+           \* drain: every object served until a pass has no effect; wdrain (live mode): the REAL work sets, fed by the
+           \* real watchers and requeues only, served until they stay empty
+           /\ stable' = (L.act.k \in {"drain", "wdrain"} /\ L.act.stable)
            /\ drift' = IF fresh THEN FALSE ELSE ~Conforms(w, L.act, W2)
 
 TraceSpec == TraceInit /\ [][TraceNext]_tvars
@@ -66,7 +68,7 @@ TraceSpec == TraceInit /\ [][TraceNext]_tvars
 TraceAccepted == TLCGet("stats").diameter - 1 = Len(Trace)
 
 \* a drain that did not come to rest (80 passes over every object) is itself a termination failure
-Overrun == l > 0 /\ Trace[l].act.k = "drain" /\ ~Trace[l].act.stable
+Overrun == l > 0 /\ Trace[l].act.k \in {"drain", "wdrain"} /\ ~Trace[l].act.stable
 
 Report ==
     LET bad == Violated(w, hist, stable) \cup (IF Overrun THEN {"C20_Terminates"} ELSE {}) IN
